@@ -166,14 +166,16 @@ class Target:
         else:
             self.d.unregister(form)
 
-    async def interest(self, name, lifetime=None, nonce=3, param_at=None):
+    async def interest(self, name, lifetime=None, nonce=3, param_at=None, cbp=False, hop_limit=None):
+        # CanBePrefix, HopLimit (0 included: a forwarder hands an Interest whose hop count is used up to LOCAL applications all the
+        # same) are no inputs of dispatching
         if param_at is None:
-            wire = bytes(make_interest(list(name), InterestParam(lifetime=lifetime, nonce=nonce)))
+            wire = bytes(make_interest(list(name), InterestParam(lifetime=lifetime, nonce=nonce, can_be_prefix=cbp, hop_limit=hop_limit)))
         else:
             # a parameterised Interest whose digest component stands at position param_at of the name (not necessarily last)
             comps = list(name)
             comps.insert(min(param_at, len(comps)), rc.comp(2, bytes(32)))
-            wire = bytes(make_interest(comps, InterestParam(lifetime=lifetime, nonce=nonce), b'prm'))
+            wire = bytes(make_interest(comps, InterestParam(lifetime=lifetime, nonce=nonce, can_be_prefix=cbp, hop_limit=hop_limit), b'prm'))
         self.last_wire = wire
         self.last_name = tuple(rc.strict_interest(wire)['name'])
         if self.kind == 'dispatcher':
@@ -275,7 +277,14 @@ def run_history(ctx, rng, kind, ops, label):
                 nerr = len(S.sentinel.all())
                 param_at = rng.choice([None, None, None, 0, 1, 2, 9])
                 try:
-                    ret = await T.interest(name, param_at=param_at)
+                    cbp = rng.random() < 0.35
+                    hop = rng.choice([None, None, None, 0, 0, 1, 255])
+                    w['can_be_prefix'], w['hop_limit'] = cbp, hop
+                    if cbp:
+                        ctx.event('interest-with-can-be-prefix')
+                    if hop == 0:
+                        ctx.event('interest-with-hop-limit-0')
+                    ret = await T.interest(name, param_at=param_at, cbp=cbp, hop_limit=hop)
                     name = T.last_name          # (with the digest component where it stands)
                     if param_at is not None:
                         ctx.event('interest-parameterised-digest-at-%s' % ('end' if param_at >= len(op[1]) else 'middle'))
@@ -554,7 +563,7 @@ def run(ctx):
     for k in ('attach', 'detach', 'duplicate-attach', 'interest-hit', 'interest-miss', 'reply-sent', 'reply-late', 'attach-with-delivery-options',
               'reconnect-with-handlers-attached', 'register-without-handler-on-free-prefix', 'duplicate-route-declaration',
               'reply-from-blocking-handler', 'interest-parameterised-digest-at-middle', 'detach-by-unregister-command-succeeded',
-              'detach-by-unregister-command-failed'):
+              'detach-by-unregister-command-failed', 'interest-with-can-be-prefix', 'interest-with-hop-limit-0'):
         ctx.need_event(k)
     ctx.assumptions = ['detaching a never-attached prefix and handler exceptions are outside the statement',
                        'the reply clause is judged on the current front-end (the legacy one has no reply callback)']
